@@ -41,7 +41,10 @@ OwnFault == {"syntax", "utf8", "rule"}          \* the file itself cannot be rea
 UnwFault == {"unwparent", "unwdir"}             \* its destination cannot be written
 Roots    == {"in", "sub", "dlua", "file"}       \* input = in | in/sub | in/d.lua (directories) | one file
 OutForms == {"none", "same", "exfile", "exdir", "exdirdot", "newdir", "newext"}   \* exdirdot: an EXISTING directory whose name has an extension
-Configs  == {"empty", "default", "rootskip", "rootapply"}
+Configs  == {"empty", "default", "rootskip", "rootapply", "luaurc", "luaurcgap"}
+\* "luaurc" / "luaurcgap": the run converts alias requires with the aliases of the `.luaurc` files of the tree (see
+\* "per-directory context" below); the other configurations never look at a `.luaurc`.
+RcCfgs   == {"luaurc", "luaurcgap"}
 
 \* A case is a record [root, fi, st, out, ff, cfg]:
 \*   root \in Roots, fi \in 0..NLua (the file given as input when root = "file", else 0),
@@ -110,10 +113,53 @@ D(p)      == [p |-> p, k |-> "d", c |-> ""]
 
 ContentOf(c, i) == IF c.st[i] \in OwnFault THEN c.st[i] ELSE "ok:" \o LuaId[i]
 
+\* ------------------------------------------------------------------ per-directory context (.luaurc)
+\* Luau reads its configuration from files named `.luaurc`: a `.luaurc` applies to every file of its directory and of the
+\* directories below, and for a given file the NEAREST `.luaurc` among the file's ancestors is the one that counts (the
+\* ones further up are not consulted for an alias the nearest one defines).  darklua follows this when a rule resolves
+\* `require('@name/...')` (convert_require and the bundler with `use_luau_configuration: true`).  This is context SHARED by
+\* the files of one batch: it may be looked up once per directory, but what a file gets must not depend on which other
+\* files were processed before it, nor on which siblings exist.
+\*
+\* In the configurations RcCfgs the run is
+\*   { generator: 'dense', rules: [ { rule: 'convert_require', current: { name: 'luau', use_luau_configuration: true },
+\*                                    target: { name: 'path' } } ] }           (no alias in the configuration itself)
+\* the tree holds `.luaurc` files at several nesting levels that define THE SAME alias `lib` with DIFFERENT targets
+\* (directories outside `in`, each holding a module m1.lua that says which directory it is in), and every healthy source
+\* contains `local dep = require('@lib/m1')`: the converted require (or, when bundling is configured, the inlined module)
+\* shows which `.luaurc` served the file.
+\*   luaurc     in/.luaurc -> libA    in/sub/.luaurc -> libB    in/sub/deep/.luaurc -> libC      three levels, each defines
+\*   luaurcgap  .luaurc    -> libR    in/sub/.luaurc -> libB                                     two levels with gaps: `in`
+\*              and `in/d.lua` inherit from the root of the tree (two Lua files share `in`), `in/sub/deep` inherits from `in/sub`
+Rc(c) == c.cfg \in RcCfgs
+RcDirs(cfg) ==
+  CASE cfg = "luaurc"    -> {<<In>>, <<In, "sub">>, <<In, "sub", "deep">>}
+    [] cfg = "luaurcgap" -> {<<>>, <<In, "sub">>}
+    [] OTHER             -> {}
+RcTarget(d) ==
+  CASE d = <<>>                  -> <<"libR">>
+    [] d = <<In>>                -> <<"libA">>
+    [] d = <<In, "sub">>         -> <<"libB">>
+    [] d = <<In, "sub", "deep">> -> <<"libC">>
+\* content classes "rc:<t>" (a .luaurc whose alias `lib` points to the directory <t> at the root of the tree) and "alias:<t>"
+\* (the module <t>/m1.lua).  They are NOT Lua sources of the batch: a `.luaurc` has no Lua extension, the targets are outside
+\* `in` -- never collected, never copied, never touched (InputsUntouched / NothingElse apply to them as to any other path).
+RcTree(cfg) == {F(d \o <<".luaurc">>, "rc:" \o RcTarget(d)[1]) : d \in RcDirs(cfg)}
+                 \cup {F(RcTarget(d) \o <<"m1.lua">>, "alias:" \o RcTarget(d)[1]) : d \in RcDirs(cfg)}
+\* THE DOCUMENTED EXPECTATION: the `.luaurc` files above the file i, the nearest of them, and the directory the alias `lib`
+\* must resolve to for that file
+RcAbove(c, i)   == {d \in RcDirs(c.cfg) : IsProperPrefix(d, Src(i))}
+NearestRc(c, i) == CHOOSE d \in RcAbove(c, i) : \A e \in RcAbove(c, i) : Len(e) <= Len(d)
+AliasDir(c, i)  == RcTarget(NearestRc(c, i))
+\* the per-directory context does not interact with the spelling of the output location: these configurations are
+\* enumerated with the output forms below (in place twice, an existing and a new output directory)
+RcOutForms == {"none", "same", "exdir", "newdir"}
+
 \* when bundling is configured (b), every healthy source requires three library modules that live OUTSIDE the input
 \* (lib/m1 -> lib/m2 -> lib/m3): they are inlined, never copied, never touched
 LibTree(b) == IF b THEN {F(<<"lib", "m1.lua">>, "lib:m1"), F(<<"lib", "m2.lua">>, "lib:m2"), F(<<"lib", "m3.lua">>, "lib:m3")} ELSE {}
 InputTree(c, b) == {F(Src(i), ContentOf(c, i)) : i \in {j \in E : c.st[j] # "absent"}} \cup {F(<<In>> \o r, "text") : r \in NonLuaRel} \cup LibTree(b)
+                     \cup RcTree(c.cfg)
 
 \* what makes a destination unwritable (we run as root: permissions do not help)
 \*   unwparent: the destination's parent directory is a regular FILE   unwdir: the destination is a non-empty DIRECTORY
@@ -173,6 +219,7 @@ WellFormedCase(c) ==
   \* a destination can only be blocked beforehand inside an output directory that already exists
   /\ \A i \in E : c.st[i] \in UnwFault => c.out = "exdir" /\ UnderInput(c, i)
   /\ \A i \in E : c.st[i] = "unwparent" => Len(Dest(c, i)) > Len(OutPath(c)) + 1
+  /\ Rc(c) => c.out \in RcOutForms
   /\ TreeOK(InitialTree(c))
 
 \* ------------------------------------------------------------------ what the property demands
@@ -256,6 +303,47 @@ FailureIsolation(c, t0, t1, r1) == IsolationOffenders(c, t0, t1, r1) = {}
 DetOffenders(c, t1, u1) == IF Strong(c) THEN {p \in Paths(t1, u1) : At(t1, p) # At(u1, p)} ELSE {}
 Deterministic(c, t1, u1) == DetOffenders(c, t1, u1) = {}
 
+\* ------------------------------------------------------------------ order, siblings, per-directory context
+\* "with files enumerated in another order": o1 = the tree after a run in which the Lua files of the input were handed to
+\* darklua in an explicitly chosen order (WorkerTree::add_source in that order, then WorkerTree::process) on a fresh copy of
+\* the initial tree.  The orders a driver uses must be permutations of Work(c) that, together, place every file before every
+\* other file at least once (OrdersCover): any dependence of one file's output on ONE earlier file is then exercised.
+OrderOffenders(c, t1, o1) == DetOffenders(c, t1, o1)
+IsOrderOf(c, ord) == Len(ord) = Cardinality(Work(c)) /\ {ord[k] : k \in 1..Len(ord)} = Work(c)
+Before(ord, x, y) == \E k, l \in 1..Len(ord) : k < l /\ ord[k] = x /\ ord[l] = y
+\* ords: a sequence of orders (sequences of entry numbers)
+OrdersCover(c, ords) ==
+  /\ Len(ords) >= 1
+  /\ \A n \in 1..Len(ords) : IsOrderOf(c, ords[n])
+  /\ \A x, y \in Work(c) : x # y => \E n \in 1..Len(ords) : Before(ords[n], x, y)
+
+\* "every other file is processed as if [its siblings] were absent", taken to the end: the file i processed ALONE -- the same
+\* tree without the other Lua files of the input (everything else stays: non-Lua files, .luaurc files, libraries, what is
+\* in the output location) -- gets the byte-identical output it gets in the batch.  a1 = the tree after that run.
+AloneTree(c, i) == LET others == {Src(j) : j \in Work(c) \ {i}} IN {r \in InitialTree(c) : r.p \notin others}
+AloneOffends(c, i, t0, t1, a1) ==
+  IF Strong(c) THEN At(t1, Dest(c, i)) # At(a1, Dest(c, i))
+  ELSE ~(Same(t0, t1, Dest(c, i)) \/ At(t1, Dest(c, i)) = At(a1, Dest(c, i)))
+
+\* each file uses the NEAREST .luaurc among its ancestors.  What an output shows (recorded by the driver, judged here):
+\*   reqs  : the string arguments of the `require` calls that remain in the output, each split at "/"
+\*   marks : the directories named by inlined alias modules (`alias_target = '<t>'`, when bundling is configured)
+\* A require string is read from the directory of the SOURCE (that is what convert_require promises: a path relative to the
+\* requiring file); Follow walks it segment by segment.  Every module the output refers to in either way must be the m1 of
+\* AliasDir(c, i), and there must be such a reference (an unconverted `@lib/m1` leads to <dir>/@lib/m1: not the module).
+Outside == <<"<outside the tree>">>
+RECURSIVE Follow(_, _)
+Follow(dir, segs) ==
+  IF segs = <<>> \/ dir = Outside THEN dir
+  ELSE LET s == Head(segs) IN
+       Follow(IF s = "." THEN dir ELSE IF s = ".." THEN (IF dir = <<>> THEN Outside ELSE Front(dir)) ELSE dir \o <<s>>, Tail(segs))
+RefersTo(i, ev) == {Follow(Front(Src(i)), ev.reqs[k]) : k \in 1..Len(ev.reqs)} \cup {<<ev.marks[k], "m1.lua">> : k \in 1..Len(ev.marks)}
+NearestOK(c, i, ev) ==
+  /\ RefersTo(i, ev) # {}
+  /\ RefersTo(i, ev) \subseteq {AliasDir(c, i) \o <<"m1">>, AliasDir(c, i) \o <<"m1.lua">>}
+\* a healthy file whose output was produced by this run (with the weaker contract: unless its destination is as it was)
+Produced(c, i, t0, t1) == Healthy(c, i) /\ At(t1, Dest(c, i)).k = "f" /\ (Strong(c) \/ ~Same(t0, t1, Dest(c, i)))
+
 \* ------------------------------------------------------------------ known deviation (F-C11-a)
 \* Worker::apply_rules marks a file excluded by a ROOT-level filter done before generating anything: with an output
 \* location it gets no output at all (and a blocked destination is never noticed).
@@ -292,7 +380,30 @@ RefIsClean(c) ==
 \* a file is never both
 Partition(c) == FaultySet(c) \cap HealthySet(c) = {} /\ FaultySet(c) \cup HealthySet(c) = Work(c)
 
+\* per-directory context: every Lua file of the universe has a .luaurc above it (the alias require of every healthy source
+\* resolves), different .luaurc files name different targets, the targets lie outside `in`, and the universe discriminates:
+\* two files of the universe must resolve the same alias differently, and some file has TWO .luaurc above it
+RcSound(c) ==
+  Rc(c) =>
+    /\ \A i \in E : RcAbove(c, i) # {} /\ NearestRc(c, i) \in RcAbove(c, i)
+    /\ \A d1, d2 \in RcDirs(c.cfg) : d1 # d2 => RcTarget(d1) # RcTarget(d2)
+    /\ \A d \in RcDirs(c.cfg) : RcTarget(d)[1] # In
+    /\ \E i, j \in E : AliasDir(c, i) # AliasDir(c, j)
+    /\ \E i \in E : Cardinality(RcAbove(c, i)) >= 2
+    /\ \A i \in E : ~Excluded(c, i)          \* no root-level filter in these configurations
+\* the tree of a file processed alone is a tree, holds that file and none of the other files to process, and keeps whatever
+\* is not a Lua file of the input
+AloneIsClean(c) ==
+  Rc(c) =>         \* (alone runs are made for these configurations)
+  LET t == InitialTree(c) IN
+  \A i \in HealthySet(c) :
+    LET a == AloneTree(c, i) IN
+    /\ F(Src(i), ContentOf(c, i)) \in a
+    /\ \A j \in Work(c) \ {i} : \A r \in a : r.p # Src(j)
+    /\ t \ a = {F(Src(j), ContentOf(c, j)) : j \in Work(c) \ {i}}      \* hence a subset of a tree: TreeOK(a)
+
 Theorems(c) ==
   /\ DestInjective(c) /\ DestInsideOutput(c) /\ DestOutsideInput(c) /\ InPlaceIsSource(c)
   /\ MirrorIsOneToOne(c) /\ NoConflict(c) /\ DestStable(c) /\ RefIsClean(c) /\ Partition(c)
+  /\ RcSound(c) /\ AloneIsClean(c)
 =============================================================================
